@@ -1,14 +1,17 @@
 """C18 - shutdown drains in-flight work and completes within the configured wait.
 
 spec: Shutdown.tla (+ Shutdown_MC.tla universes / scenario generator)
-TLC : NoAcceptAfterStart, ShortCompletes, BoundedReturn on every configuration of <=2 (quick) /
-      <=3 (thorough) listener kinds out of {http, https, tcp, tcp+sni, grpc, https+tcp+sni} x <=2 work
-      items per listener x durations {short, long, never} x start moments; the deviation of the pinned
-      code (GrpcIgnoresDeadline) must violate BoundedReturn on the model; every examined Return
-      transition is printed as a scenario; seeded simulation adds mixes of up to all six kinds
+TLC : NoAcceptAfterStart, ShortCompletes, NothingRunsAtReturn, BoundedReturn on every configuration of
+      <=2 listener kinds out of {http, https, tcp, tcp+sni, grpc, https+tcp+sni} (thorough: also <=3 of 4
+      kinds), and of listeners that share a port on two local addresses ("k~2"), x <=2 work items per
+      listener x durations {short, long, never, mute = half-closed tunnel with a silent upstream} x start
+      moments; the deviation of the pinned code (GrpcIgnoresDeadline) must violate BoundedReturn on the
+      model; every examined Return transition is printed as a scenario; seeded simulation adds mixes of
+      up to all six kinds
 bind: scenarios played against the real proxy.ListenAndServe* listeners (real `servers` registry),
-      real in-flight requests / tunnels / streams and the real proxy.Shutdown(W)
-      (harness/proxy/c18_test.go); thorough also runs the built fabio binary and sends SIGTERM"""
+      real in-flight requests / tunnels / streams and the real proxy.Shutdown(W), followed by what the
+      process exit does (harness/proxy/c18_test.go); thorough also runs the built fabio binary and sends
+      SIGTERM"""
 import json, os, random, signal, socket, subprocess, threading, time
 from lib import vf
 
